@@ -118,6 +118,12 @@ class ThreadWorker(base.Worker):
         self._wrap_future(fs, conn)
 
     def accept(self, server, listener):
+        if self.nr_conns >= self.worker_connections:
+            # several listeners may be reported readable by the same
+            # poller round: stay within worker_connections and leave
+            # the connection in the listen queue for a later round
+            return
+
         try:
             sock, client = listener.accept()
             # initialize the connection object
